@@ -357,6 +357,44 @@ def R5_shared_checks(run):
             ok = len(cs) == 1 and is_param(cs[0][2][1], "tick_index") and is_param(cs[0][2][2], "tick_spacing") and any("TickNotFound" in cfg.block_error_codes(fn, b) for b in range(len(fn.blocks)))
             run.check("R5", "%s@%s" % (m, label), ok, "%s::%s does not look the slot up through check_is_usable_tick_and_get_offset(tick_index, tick_spacing) with None => TickNotFound" % (path, m), loc=fn.loc(),
                       detail="None => TickNotFound")
+    # the shared Pinocchio lookup itself: an offset is handed out only for a tick that lies inside this array, inside the global
+    # bounds and on the spacing grid (the offset is computed from |tick - start|, so without the array-bounds test a tick k
+    # spacings *below* the start would be served from slot k)
+    lk = facts.need_fn("pinocchio::state::whirlpool::tick_array::TickArray::check_is_usable_tick_and_get_offset")
+    run.touch(lk)
+    some = set()
+    for bi, bb in enumerate(lk.blocks):
+        for st in bb["s"]:
+            agg = st.get("rv", {}).get("agg") if st["k"] == "=" else None
+            if agg and agg.get("k") == "adt" and agg["adt"].endswith("option::Option") and agg["v"] == "Some" and st["p"]["l"] == 0:
+                some.add(bi)
+    guards = {}
+    for at in A.atoms(lk):
+        c = at.cond()
+        names = {x[1].rsplit("::", 1)[-1] for x in subterms(at.term) if x[0] == "call"}
+        key = None
+        if "check_in_array_bounds" in names:
+            key, pass_side = "in-array", True
+        elif "check_is_out_of_bounds" in names:
+            key, pass_side = "in-global-bounds", False
+        elif c and c[0] in ("Eq", "Ne") and (const_val(c[2]) == 0 or const_val(c[1]) == 0) and any(x[0] == "call" and x[1].endswith("unsigned_abs") for x in subterms(at.term)):
+            key, pass_side = "on-grid", c[0] == "Eq"
+        if key is None:
+            continue
+        block_side = at.false_targets if pass_side else at.true_targets
+        reach = set()
+        for b in block_side:
+            reach |= cfg.reach(lk, b, cut_blocks=[at.block])
+        ok_args = True
+        if key != "on-grid":
+            call = [x for x in subterms(at.term) if x[0] == "call" and x[1].rsplit("::", 1)[-1] in ("check_in_array_bounds", "check_is_out_of_bounds")][0]
+            ok_args = any(is_param(strip(a), "tick_index") for a in call[2])
+        guards[key] = guards.get(key, False) or (not (reach & some) and ok_args)
+    for key in ("in-array", "in-global-bounds", "on-grid"):
+        run.check("R5", "lookup-guard:%s@pinocchio" % key, bool(some) and guards.get(key, False),
+                  "check_is_usable_tick_and_get_offset can return Some(offset) for a tick that is not %s" % key, loc=lk.loc(),
+                  detail={"in-array": "!check_in_array_bounds(tick_index, tick_spacing) => None", "in-global-bounds": "check_is_out_of_bounds(tick_index) => None",
+                          "on-grid": "remainder != 0 => None"}[key])
 
 
 def R6_account_wiring(run):
